@@ -926,6 +926,13 @@ func (tr *FnCtx) block(b *ssa.BasicBlock) {
 			tr.assumeLoaded(st, v) // whatever a variable holds refers to allocated objects
 		}
 		tr.loopAssume(li, st)
+		if tr.loopInterferes(li) {
+			// the invariant was established when the previous iteration ended; since then other critical sections
+			// may have run: only what the rely conditions keep stable survives at the loop head
+			held := tr.cur(st, compHeld)
+			tr.interference(st, tr.params)
+			st.Comps[compHeld.Name] = held
+		}
 	}
 
 	for idx, in := range b.Instrs {
